@@ -191,7 +191,14 @@ func genC14(maxTail int) func(t *rapid.T) pktsim.History {
 		nsend := 0
 		var fwd, rev []int // packet indices by direction (assuming the sends are accepted)
 		send := func(dir int, th, tt int) {
-			add(pktsim.Op{K: "send", L: L, D: dir, TH: th, TT: tt, S: []sim.Script{genScript(t, nsend, []string{"ok", "ok", "err"})}})
+			// packets addressed to the end that will be closed are often answered asynchronously:
+			// without a synchronous WriteAcknowledgement the receive handler's own channel-state
+			// check is the only guard on that path
+			outs := []string{"ok", "ok", "err", "async"}
+			if dir != d {
+				outs = []string{"async", "ok", "async", "err"}
+			}
+			add(pktsim.Op{K: "send", L: L, D: dir, TH: th, TT: tt, S: []sim.Script{genScript(t, nsend, outs)}})
 			if dir == d {
 				fwd = append(fwd, nsend)
 			} else {
